@@ -336,7 +336,22 @@ func (f *form) body(id string) string {
 		} else {
 			b.WriteString("\t\tswitch x.(type) {\n")
 		}
+		// concrete syntax: the default clause stands before clause dpos+1 (anywhere among the clauses: its
+		// position has no meaning; chosen by the form itself)
+		hs := fnv.New32a()
+		hs.Write([]byte(id))
+		dpos := int(hs.Sum32()>>3) % (len(f.Cl) + 1)
+		dflt := func() {
+			b.WriteString("\t\tdefault: ")
+			if bind {
+				b.WriteString("_ = y; ")
+			}
+			b.WriteString(out(`"def"`) + "\n")
+		}
 		for u, cl := range f.Cl {
+			if u == dpos {
+				dflt()
+			}
 			ts := make([]string, len(cl))
 			for w, t := range cl {
 				ts[w] = goType(t)
@@ -350,11 +365,10 @@ func (f *form) body(id string) string {
 			}
 			b.WriteString(out(strconv.Quote(strconv.Itoa(f.Lb[u]))) + "\n")
 		}
-		b.WriteString("\t\tdefault: ")
-		if bind {
-			b.WriteString("_ = y; ")
+		if dpos == len(f.Cl) {
+			dflt()
 		}
-		b.WriteString(out(`"def"`) + "\n\t\t}")
+		b.WriteString("\t\t}")
 		return b.String()
 	case "sprint":
 		return pre + "lg = \"\"; mut(&v); aux = fmt.Sprint(" + operand(f.D) + "); " + out(`"ok"`)
